@@ -3,6 +3,8 @@ from core import Case
 from . import proggen as G
 
 ID = "C03"
+# theorems of Props/Tables.lean over the tables TRANSLATED from /repo/src and libccp's headers on every run (DESIGN 11.7)
+TABLE_THEOREMS = ['src_opcodes_eq', 'src_regEnc_eq', 'src_reg_layout', 'opcodes_shared_with_libccp', 'regclasses_shared_with_libccp', 'indices_fit_libccp']
 THEOREMS = [
     "Portus.C03.bin_wf", "Portus.C03.bin_blocks", "Portus.C03.compile_wf", "Portus.C03.decode_of_serialize",
     "Portus.C03.wfRecs_of_wf", "Portus.C03.check_model", "Portus.C03.check_model_cas",
